@@ -469,6 +469,8 @@ type walker struct {
 	ctorArg bool
 	inIf    int        // > 0 inside the body of an if: a close(ch) here is a check-then-close
 	rules   *ruleState // split read-modify-write / use-after-release bookkeeping (rules.go)
+	// locals that are another name for the memory of a package-level variable (globals.go)
+	globalAlias map[types.Object]*globalAliasInfo
 }
 
 func (w *walker) collectGo(n ast.Node, inLoop bool) {
@@ -703,6 +705,9 @@ func (w *walker) stmt(s ast.Stmt) bool {
 			switch {
 			case len(s.Rhs) == len(s.Lhs):
 				w.assignRules(l, s.Rhs[i], keep)
+				if !keep {
+					w.noteGlobalAlias(l, s.Rhs[i])
+				}
 			case len(s.Rhs) == 1:
 				w.assignRules(l, s.Rhs[0], keep)
 			}
@@ -812,6 +817,7 @@ func (w *walker) stmt(s ast.Stmt) bool {
 						if i < len(vs.Names) && len(vs.Values) == len(vs.Names) {
 							w.noteFresh(vs.Names[i], v)
 							w.assignRules(vs.Names[i], v, false)
+							w.noteGlobalAlias(vs.Names[i], v)
 						}
 					}
 				}
@@ -967,6 +973,10 @@ func (w *walker) expr(e ast.Expr) {
 			if sel.Kind() == types.MethodVal {
 				w.methodValue(e, sel)
 			}
+		default:
+			if v, pi := w.globalIdent(e); v != nil {
+				w.globalAccess(v, pi, "read", "", e.Pos()) // otherpkg.Var
+			}
 		}
 	case *ast.CallExpr:
 		w.call(e)
@@ -974,6 +984,7 @@ func (w *walker) expr(e ast.Expr) {
 		w.lit(e, "stored")
 	case *ast.UnaryExpr:
 		if e.Op == token.AND {
+			w.globalWrite(e.X, false, "address-taken")
 			if s, ok := e.X.(*ast.SelectorExpr); ok {
 				if sel := w.info.Selections[s]; sel != nil && sel.Kind() == types.FieldVal {
 					if st, ok := sel.Obj().Type().Underlying().(*types.Struct); ok && st != nil {
@@ -1068,6 +1079,7 @@ func (w *walker) write(l ast.Expr, rmw bool) {
 	if rmw {
 		kind = "rmw"
 	}
+	w.globalWrite(l, rmw, "")
 	switch l := l.(type) {
 	case nil:
 	case *ast.Ident:
@@ -1094,6 +1106,9 @@ func (w *walker) write(l ast.Expr, rmw bool) {
 }
 
 func (w *walker) lockName(x ast.Expr) (owner, name string, ok bool) {
+	if o, n, isGlobal := w.globalLockName(x); isGlobal {
+		return o, n, true
+	}
 	s, isSel := x.(*ast.SelectorExpr)
 	if !isSel {
 		return w.canon(x), "local." + w.canon(x), true
@@ -1356,6 +1371,9 @@ func (w *walker) callWith(e *ast.CallExpr, goCtx *ctx) {
 			case "copy":
 				w.write(e.Args[0], false)
 				w.expr(e.Args[1])
+			case "clear":
+				w.write(e.Args[0], false)
+				w.expr(e.Args[0])
 			case "close":
 				w.expr(e.Args[0])
 				if s, ok := e.Args[0].(*ast.SelectorExpr); ok && w.inIf > 0 {
@@ -1388,6 +1406,14 @@ func (w *walker) callWith(e *ast.CallExpr, goCtx *ctx) {
 					kind = "awrite"
 				}
 				if u, ok := e.Args[0].(*ast.UnaryExpr); ok && u.Op == token.AND {
+					if v, pi, _ := w.globalRoot(u.X); v != nil {
+						w.globalAccess(v, pi, kind, "sync/atomic", u.X.Pos())
+						for _, a := range e.Args[1:] {
+							w.expr(a)
+						}
+
+						return
+					}
 					if s, ok := u.X.(*ast.SelectorExpr); ok {
 						if sel := w.info.Selections[s]; sel != nil && sel.Kind() == types.FieldVal {
 							w.access(s, kind, "sync/atomic")
@@ -1509,6 +1535,20 @@ func (w *walker) callWith(e *ast.CallExpr, goCtx *ctx) {
 // recvAccess records what evaluating the receiver expression of a method call touches.
 func (w *walker) recvAccess(x ast.Expr, callee *types.Func, tracked bool) {
 	s, ok := x.(*ast.SelectorExpr)
+	if v, pi := w.globalIdent(x); v != nil {
+		// method called on a package-level variable
+		kind := "read"
+		if sig, _ := callee.Type().(*types.Signature); sig != nil && sig.Recv() != nil && !tracked {
+			_, ptrRecv := sig.Recv().Type().(*types.Pointer)
+			_, ptrVar := v.Type().Underlying().(*types.Pointer)
+			if ptrRecv && !ptrVar {
+				kind = "write" // pointer-receiver method on a value of a foreign type: may mutate it
+			}
+		}
+		w.globalAccess(v, pi, kind, "method "+callee.Name()+" called on it", x.Pos())
+
+		return
+	}
 	if !ok {
 		if _, isId := x.(*ast.Ident); !isId {
 			w.expr(x)
@@ -1677,6 +1717,9 @@ func (w *walker) calleeCtx(t *unit, recvExpr ast.Expr, args []ast.Expr) ctx {
 	}
 	for _, h := range w.held {
 		nh := heldLock{owner: "", name: h.name, mode: h.mode}
+		if strings.HasPrefix(h.name, "global.") {
+			nh.owner = h.owner // a package-level lock is the same lock in every function
+		}
 		for _, r := range rens {
 			if h.owner == r.from {
 				nh.owner = r.to
